@@ -510,8 +510,9 @@ class Eval:
                 continue
             if x.get("kind") == "DeclStmt":
                 for v in x.get("inner", []):
-                    if v.get("kind") == "VarDecl" and v.get("name") == "__range1" or (v.get("name") or "").startswith("__range"):
+                    if v.get("kind") == "VarDecl" and (v.get("name") or "").startswith("__range"):
                         rng = self.expr(v["inner"][0])
+                        rng = rng.get() if isinstance(rng, Ref) else rng
                     elif v.get("kind") == "VarDecl" and not (v.get("name") or "").startswith("__"):
                         var = v
         body = inner[-1]
@@ -1167,6 +1168,9 @@ class Eval:
     def e_CXXConstructExpr(self, n):
         args = n.get("inner") or []
         t = strip_cv(n.get("dtype") or n.get("type"))
+        if "iterator" in t and len(args) == 1:
+            v = self.expr(args[0])
+            return v.get() if isinstance(v, Ref) else v
         if "slice" in t:
             if len(args) == 1:
                 v = self.expr(args[0])
@@ -1203,8 +1207,12 @@ class Eval:
                 v = self.expr(args[0])
                 return v.get() if isinstance(v, Ref) else v
             return OptV("tmp")
+        vals = []
         for a in args:
-            self.expr(a)
+            v = self.expr(a)
+            vals.append(v.get() if isinstance(v, Ref) else v)
+        if len(vals) == 1 and isinstance(vals[0], tuple) and vals[0] and vals[0][0] == "iter":
+            return vals[0]
         return Opaque("construct")
 
     e_CXXTemporaryObjectExpr = e_CXXConstructExpr
@@ -1242,6 +1250,20 @@ class Eval:
             return self.call_write(r, args)
         if name == "accumulate":
             return self.call_accumulate(args)
+        if name in ("max", "min") and len(args) == 2:
+            a, b = [self.expr(x) for x in args]
+            a = a.get() if isinstance(a, Ref) else a
+            b = b.get() if isinstance(b, Ref) else b
+            ea, eb = self.as_int(a), self.as_int(b)
+            if ea is not None and eb is not None:
+                if ea.is_const() and eb.is_const():
+                    return const(max(ea.cval(), eb.cval()) if name == "max" else min(ea.cval(), eb.cval()), ea.ty or eb.ty)
+                if name == "max" and self.mode in ("serialize", "size") and (ea.is_const() != eb.is_const()):
+                    # max(bytes of a padded array, padded size): in-range builder arguments fit the padding
+                    self.__dict__.setdefault("assumed", []).append("padded arrays fit their declared padding")
+                    return ea if ea.is_const() else eb
+                c = Cond("ge", ea, eb)
+                return sym.ite(c, ea, eb, ea.ty) if name == "max" else sym.ite(c, eb, ea, ea.ty)
         if name in ("to_string",):
             for a in args:
                 self.expr(a)
@@ -1273,7 +1295,8 @@ class Eval:
             return self.vec_call(base, name, av, n)
         if isinstance(base, OptV):
             if name == "has_value":
-                return Cond("opaque", sym.sym(f"is_some(self.{base.name.rstrip('_')})", "bool"))
+                nm = base.name if base.name.startswith("self.") else f"self.{base.name.rstrip('_')}"
+                return Cond("opaque", sym.sym(f"is_some({nm})", "bool"))
             if name in ("value",):
                 return self.opt_value(base)
             if name == "emplace":
@@ -2090,3 +2113,343 @@ class RuntimeEval(Eval):
                         out.append(f"output byte {i} bit {j} is {bits[j]}, expected bit {pos + j} of the value")
                         return out
         return out
+
+
+# ====================================================================================== serializer side
+class SerEval(Eval):
+    """Builder::Serialize / struct Serialize / GetSize: items in the format of rslayout.encoder_items; atoms are named as
+    in the Rust evaluator (self.x, int(self.e), len(self.x), sum_encoded_len(self.x), encoded_len(self.x), is_some(..))
+    so that the comparators of C03 apply unchanged."""
+
+    def __init__(self, mod, cls, fn, mode="serialize", statics=None):
+        super().__init__(mod, cls, fn, mode)
+        self.statics = statics or {}
+        self.size_value = None
+        self.ref_chunks = None
+
+    def fname(self, name):
+        return name[:-1] if name.endswith("_") else name
+
+    def initial_member(self, base, name, n):
+        t = strip_cv(n.get("dtype") or n.get("type"))
+        f = self.fname(name)
+        if "vector" in t or re.match(r"(?:std::)?array<", t):
+            m = re.match(r"(?:std::)?array<(.*), *(\d+)>", t)
+            if m:
+                v = VecV(f"self.{f}", const(int(m.group(2)), "u64"), static_n=int(m.group(2)))
+            else:
+                v = VecV(f"self.{f}", sym.sym(f"len(self.{f})", "u64", 0, 2 ** 48))
+            v.elem_t = t
+            return v
+        if "optional" in t:
+            o = OptV(f"self.{f}")
+            m = re.search(r"optional<\s*([^<>]+)>", t)
+            it = m.group(1).strip() if m else ""
+            b = it.split("::")[-1]
+            if b in self.mod.enums:
+                ty = self.mod.enums[b].get("uty")
+                o.inner = EnumV(b, sym.sym(f"int(self.{f}?)", ty, 0, sym.TYMAX.get(ty)))
+            elif b in self.mod.classes:
+                o.inner = ObjV(b, None, f"self.{f}")
+            else:
+                ty = self.ity(it)
+                o.inner = sym.sym(f"self.{f}?", ty, 0, sym.TYMAX.get(ty))
+            return o
+        ty = self.ity(t)
+        b = t.split("::")[-1]
+        if b in self.mod.enums:
+            uty = self.mod.enums[b].get("uty")
+            return EnumV(b, sym.sym(f"int(self.{f})", uty, 0, sym.TYMAX.get(uty)))
+        if ty:
+            return sym.sym(f"self.{f}", ty, 0, sym.TYMAX.get(ty))
+        if b in self.mod.classes:
+            return ObjV(b, None, f"self.{f}")
+        if "slice" in t:
+            return SliceV(sym.sym(f"len(self.{f})", "u64", 0, 2 ** 48), "member", name)
+        return Opaque(f"member {name}")
+
+    def elem_value(self, vec, var):
+        t = strip_cv(var.get("dtype") or var.get("type") or "")
+        cands = [t, getattr(vec, "elem_t", "")]
+        for cand in cands:
+            m = re.search(r"<\s*([^,<>]+)", cand) if "<" in cand else None
+            et = m.group(1).strip() if m else cand
+            b = et.split("::")[-1]
+            if b in self.mod.classes:
+                return ObjV(b, None, f"{vec.name}[]")
+            if b in self.mod.enums:
+                ty = self.mod.enums[b].get("uty")
+                return EnumV(b, sym.sym(f"int({vec.name}[])", ty, 0, sym.TYMAX.get(ty)))
+            ty = self.ity(et)
+            if ty:
+                return sym.sym(f"{vec.name}[]", ty, 0, sym.TYMAX.get(ty))
+        return Opaque("elem")
+
+    def convert(self, v, ty, what, explicit=False):
+        if v.ty == ty:
+            return v
+        if v.is_const():
+            return sym.cast(v, ty)
+        return E("cast", (v,), ty)
+
+    def arith(self, op, a, b, ty):
+        name = {"+": "add", "-": "sub", "*": "mul", "/": "div", "%": "rem", "<<": "shl", ">>": "shr", "&": "and",
+                "|": "or", "^": "xor"}.get(op)
+        if name is None:
+            self.obl("unmodelled", False, f"binary {op}")
+            return Opaque(op)
+        return binop(name, a, b, ty)
+
+    def cond(self, n):
+        c = super().cond(n)
+        # (x.has_value() ? 1 : 0) == 1   ->   is_some(x)
+        if c is not None and c.op in ("eq", "ne") and isinstance(c.args[0], E) and isinstance(c.args[1], E):
+            a, b = c.args
+            au = a
+            while au.op == "cast":
+                au = au.args[0]
+            if au.op == "ite" and b.is_const() and au.args[1].is_const() and au.args[2].is_const():
+                t_, f_ = au.args[1].cval() == b.cval(), au.args[2].cval() == b.cval()
+                if c.op == "ne":
+                    t_, f_ = not t_, not f_
+                if t_ and not f_:
+                    return au.args[0]
+                if f_ and not t_:
+                    return au.args[0].negate()
+        return c
+
+    def s_DeclStmt(self, s):
+        super().s_DeclStmt(s)
+        if self.mode != "serialize":
+            return
+        for v in s.get("inner", []):
+            if v.get("kind") == "VarDecl" and strip_cv(v.get("type")) in ("size_t", "unsigned long"):
+                val = self.vars.get(v["name"])
+                if isinstance(val, E) and not val.is_const() and not val.key().startswith("span_len@"):
+                    w = sym.sym(f"szv({v['name']})", "u64", 0, 2 ** 48)
+                    self.env.defs[w.key()] = val
+                    self.vars[v["name"]] = w
+
+    def in_range(self, e, nbytes):
+        """in-range builder arguments: each OR-ed term of a group fits the reference width of the bit-field at its shift"""
+        rc = getattr(self, "ref_chunks", None)
+        if rc is None or self.loop is not None or getattr(self, "depth", 0) > 0:
+            return
+        i = getattr(self, "ref_i", 0)
+        while i < len(rc) and rc[i][0] != nbytes:
+            i += 1
+        if i >= len(rc):
+            return
+        self.ref_i = i + 1
+        fields = rc[i][1]
+
+        def leaves(x, shift):
+            if x.op == "or":
+                for a in x.args:
+                    yield from leaves(a, shift)
+            elif x.op == "cast":
+                yield from leaves(x.args[0], shift)
+            elif x.op == "shl" and x.args[1].is_const():
+                yield from leaves(x.args[0], shift + x.args[1].cval())
+            else:
+                yield x, shift
+        for leaf, sh in leaves(e, 0):
+            if leaf.is_const():
+                continue
+            for (fs, fw, fk) in fields:
+                if fs == sh and fk in ("size", "count", "elemsize", "enum", "scalar", "flag"):
+                    self.env.refine(leaf, hi=(1 << fw) - 1)
+
+    # ---- emitting
+    def emit(self, it):
+        if self.loop is not None:
+            self.loop["items"].append(it)
+        else:
+            self.items.append(it)
+
+    def call_write(self, r, args):
+        spid = r.get("id")
+        sp = self.mod.spec.get(spid)
+        if not sp:
+            self.obl("unmodelled", False, "write_* specialisation not found")
+            return Opaque("write")
+        name, targs = sp[0], sp[1]
+        n = int(targs[1])
+        self.expr(args[0])
+        v = self.expr(args[1])
+        v = v.get() if isinstance(v, Ref) else v
+        e = self.as_int(v)
+        if e is None:
+            self.obl("unmodelled", False, f"{name} of a non-integer value")
+            return Opaque("write")
+        class _W:
+            pass
+        w = _W()
+        w.nbytes, w.order, w.e, w.env, w.line, w.api = n, (None if n == 1 else ("little" if name.endswith("_le") else "big")), \
+            e, self.env, self.line, name
+        from . import rslayout
+        self.in_range(e, n)
+        self.emit(rslayout.write_item(w))
+        return Opaque("void")
+
+    def emit_bytes(self, src):
+        self.emit({"k": "bytes", "src": src.name, "line": self.line})
+
+    def emit_nested(self, base):
+        self.emit({"k": "nested", "src": base.name, "type": base.ty, "line": self.line, "static": self.statics.get(base.ty)})
+
+    def obj_call(self, base, name, av, n, me):
+        if name == "GetSize":
+            st = self.statics.get(base.ty)
+            if st is not None:
+                return const(st, "u64")
+            return sym.sym(f"encoded_len({base.name})", "u64", 0, 2 ** 48)
+        return super().obj_call(base, name, av, n, me)
+
+    def vec_call(self, v, name, av, n):
+        if name == "size" and v.name == "output":
+            return sym.sym(f"span_len@{len(self.items)}", "u64", 0, 2 ** 48)
+        return super().vec_call(v, name, av, n)
+
+    def emit_resize(self, v, av):
+        if v.name != "output" or not av:
+            self.obl("unmodelled", False, "resize of a vector other than output")
+            return
+        tgt = self.as_int(av[0])
+        val = self.as_int(av[1]) if len(av) > 1 else const(0)
+        cur = sym.sym(f"span_len@{len(self.items)}", "u64", 0, 2 ** 48)
+        cnt = self.resolve_markers(sym.p_add(self.env.poly(tgt), self.env.poly(cur), -1))
+        self.emit({"k": "fill", "value": val.cval() if isinstance(val, E) and val.is_const() else None, "count": cnt,
+                   "line": self.line})
+
+    def resolve_markers(self, p):
+        from . import rslayout
+        plus = minus = None
+        rest = {}
+        for mono, c in p.items():
+            m = re.fullmatch(r"span_len@(\d+)", mono[0]) if len(mono) == 1 else None
+            if m and c == 1:
+                plus = int(m.group(1))
+            elif m and c == -1:
+                minus = int(m.group(1))
+            else:
+                rest[mono] = c
+        if plus is None or minus is None:
+            return p
+        lo, hi = sorted((plus, minus))
+        tot = {}
+        for it in self.items[lo:hi]:
+            tot = sym.p_add(tot, rslayout.item_bytes(it, self.env))
+        sign = 1 if plus > minus else -1
+        return sym.p_add(rest, tot, sign)
+
+    def call_accumulate(self, args):
+        vs = [self.expr(a) for a in args]
+        vec = next((v[1] for v in vs if isinstance(v, tuple) and v and v[0] == "iter"), None)
+        lam = next((v[1] for v in vs if isinstance(v, tuple) and v and v[0] == "lambda"), None)
+        if vec is None or lam is None:
+            self.obl("unmodelled", False, "std::accumulate form")
+            return Opaque("acc")
+        if any(x.get("kind") == "MemberExpr" and x.get("name") == "GetSize" for x in walk(lam)) or \
+                any(x.get("kind") == "CXXDependentScopeMemberExpr" for x in walk(lam)):
+            b = (getattr(vec, "elem_t", "") or "")
+            m = re.search(r"<\s*([^,<>]+)", b)
+            et = m.group(1).strip().split("::")[-1] if m else None
+            st = self.statics.get(et)
+            if st is not None:
+                return binop("mul", vec.size, const(st, "u64"), "u64")
+            return sym.sym(f"sum_encoded_len({vec.name})", "u64", 0, 2 ** 48)
+        self.obl("unmodelled", False, "std::accumulate with an unrecognised lambda")
+        return Opaque("acc")
+
+    def e_ConditionalOperator(self, n):
+        cn, a, b = n["inner"]
+        c = self.cond(cn)
+        va, vb = self.expr(a), self.expr(b)
+        va = va.get() if isinstance(va, Ref) else va
+        vb = vb.get() if isinstance(vb, Ref) else vb
+        ea, eb = self.as_int(va), self.as_int(vb)
+        if c is not None and ea is not None and eb is not None:
+            # x.empty() ? 0 : x[0].GetSize()  ->  ite(len > 0, size, 0)
+            if c.op == "eq" and isinstance(c.args[1], E) and c.args[1].is_const() and c.args[1].cval() == 0 and ea.is_const() \
+                    and ea.cval() == 0:
+                return sym.ite(Cond("gt", c.args[0], const(0, "u64")), eb, ea, eb.ty)
+            return sym.ite(c, ea, eb, ea.ty or eb.ty)
+        return Opaque("cond")
+
+    def e_CXXOperatorCallExpr(self, n):
+        inner = n["inner"]
+        callee = self.strip(inner[0])
+        opname = (callee.get("ref") or {}).get("name", "")
+        if opname == "operator[]":
+            base = self.expr(inner[1])
+            base = base.get() if isinstance(base, Ref) else base
+            if isinstance(base, VecV):
+                self.expr(inner[2])
+                b = getattr(base, "elem_t", "") or ""
+                m = re.search(r"<\s*([^,<>]+)", b)
+                et = m.group(1).strip().split("::")[-1] if m else None
+                if et in self.mod.classes:
+                    return ObjV(et, None, f"{base.name}[]")
+                return Opaque("vec-elem")
+        return super().e_CXXOperatorCallExpr(n)
+
+    # ---- control flow
+    def two_way(self, c, then, els):
+        if els is not None:
+            self.obl("unmodelled", False, "if/else in a serializer")
+            return
+        saved = self.env
+        self.env = saved.copy()
+        if c is not None:
+            self.env.assume(c)
+        before = len(self.items)
+        lp_before = len(self.loop["items"]) if self.loop is not None else None
+        try:
+            self.stmt(then)
+        except Ret:
+            pass
+        self.env = saved
+        tgt = self.loop["items"] if self.loop is not None else self.items
+        start = lp_before if self.loop is not None else before
+        inner = tgt[start:]
+        del tgt[start:]
+        if not inner:
+            return
+        if all(x["k"] == "fill" for x in inner):
+            for x in inner:
+                tgt.append(x)
+            return
+        src = None
+        for x in inner:
+            if x["k"] == "chunk":
+                nm = next((b[1] for b in x["bits"] if isinstance(b, tuple) and b[0] == "optval"), None)
+                if nm:
+                    src = "self." + nm
+            elif x["k"] == "nested":
+                src = x.get("src")
+        if src is None:
+            m = re.search(r"is_some\((self\.\w+)\)", c.key()) if c is not None else None
+            if m:
+                src = m.group(1)
+        tgt.append({"k": "optional", "src": src, "cond": c, "items": inner, "line": self.line})
+
+    def ser_loop_done(self, lp):
+        over = lp.get("over")
+        inner = lp["items"]
+        if not inner:
+            return
+        it = {"k": "array", "src": over.name if over is not None else None, "count": lp["count"], "line": lp["line"]}
+        if len(inner) == 1 and inner[0]["k"] == "chunk":
+            it["elem"] = inner[0]
+        elif len(inner) == 1 and inner[0]["k"] == "nested":
+            it["elem"] = {"k": "nested", "type": inner[0].get("type"), "static": inner[0].get("static")}
+        else:
+            it["elem"] = {"k": "unknown", "n": len(inner)}
+        self.emit(it)
+
+    def s_ReturnStmt(self, s):
+        v = self.expr(s["inner"][0]) if s.get("inner") else None
+        v = v.get() if isinstance(v, Ref) else v
+        self.size_value = v
+        raise Ret(v)
